@@ -18,8 +18,13 @@ computed together in one ``dask.compute(*stages)`` (sync; a seeded tenth on thre
   step reassociates floating point arithmetic, then the tolerance of compare.float_tol) — so that a
   metadata lie which is "compensated" by an equally wrong computation is still seen.
 
-Only the FIRST failing stage of a pipeline is reported (later stages inherit the fault).
-Labels: ``<step variant>:<input features>:<facet>``.
+Only the FIRST failing stage of a pipeline is reported (later stages inherit the fault); stages are judged in program
+order, so a step that cannot be built / computed is only looked at after everything before it was found consistent.
+Labels: ``<step variant>:<input features>:<facet>`` with input features zero-length | 0-d | unknown-chunks |
+axis-of-length<=1-in-several-chunks | zero-size-chunk (+ op specific predicates); mechanisms triaged on the unchanged
+tree get one label each (`classify`).  An expression that dask refuses to build or to compute has no computed result:
+the statement does not speak, the case is recorded (counters build-refused:*/compute-refused:*) and not alarmed —
+unless its blocks, computed one by one, contradict .chunks.
 
 Calibration
 * see CALIBRATION below (filled while triaging alarms on the unchanged tree) and the domain notes in vf/gen/c25_ops.py.
@@ -38,7 +43,8 @@ from ..core.ctx import exc_label
 from ..mon.compare import compare_arrays, lazy_meta_mismatch
 
 PROP = "C25"
-RULE = ("cases = (input shape 0-3 d with lengths 0-6, dtype, data seed, chunking, pipeline of 2-6 steps). Steps are drawn from "
+RULE = ("cases = (input shape 0-3 d with lengths 0-6, dtype, data seed, chunking (12% with an extra zero-size chunk), pipeline of 2-6 steps). "
+        "Steps are drawn from "
         "elementwise/broadcast ops, indexing (slices, ints, None, Ellipsis, int lists, boolean masks NumPy and dask -> unknown chunks), "
         "setitem, reductions (axis/keepdims/split_every), scans, rechunk, reshape, transpose family, flip/rot90, squeeze/expand_dims, "
         "concatenate/stack/block, broadcast_to, pad modes, diff, roll, repeat, tile, tril/triu, take, map_overlap (trim), unique, bincount, "
@@ -67,12 +73,21 @@ PENDING = {
     "aligned-op:axis-of-length<=1-in-several-chunks:blocks-do-not-match-chunks":
         "unify_chunks rechunks an operand axis of total length <= 1 that is split into several (zero-size) chunks to ONE chunk but "
         "reports the old chunks: x[mask].compute_chunk_sizes() + 1 declares chunks (0,1,0,0) over a one-block graph -> wrong "
-        "shape/values or IndexError/missing keys when blocks are computed; findings_proposed/C25.md #2, fix proposed",
-    "reduce.minmax:zero-length:lazy-shape": "min/max over an axis of an array whose OTHER axis has length 0: lazy shape (0,3), computed "
-                                            "(1,0) (chunk_min/chunk_max return a 1x..x0 placeholder for every empty block); C25.md #3, fix proposed",
-    "searchsorted:zero-length:lazy-shape": "same mechanism as reduce.minmax (searchsorted ends with out.max(axis=0)); C25.md #3",
+        "shape/values or IndexError/missing keys when blocks are computed; C25.md #2, fix proposed",
+    "reduce.minmax:empty-blocks:result-shape": "min/max/nanmin/nanmax over a non-empty axis when a block is empty along ANOTHER axis "
+                                               "(zero-length axis or zero-size chunk): lazy shape (0,3), computed (1,0) (chunk_min/chunk_max "
+                                               "return a 1x..x0 placeholder for every empty block); C25.md #3, fix proposed",
+    "searchsorted:empty-blocks:result-shape": "same mechanism as reduce.minmax (searchsorted ends with out.max(axis=0)); C25.md #3",
     "bincount:max>=minlength:lazy-shape": "da.bincount(x, minlength=m) declares shape (m,) although the result is longer whenever "
                                           "x.max() >= m; C25.md #4, no safe small fix (known finding)",
+    "negative-step-slice:zero-size-chunk:vs-numpy-shape": "x[::-1] / flip / rot90 over an axis with a zero-size chunk next to the chunk "
+                                                          "holding the start returns an EMPTY array (lazy and computed shape agree, NumPy "
+                                                          "differs): _slice_1d bisect_left on duplicate boundaries; C25.md #5, fix proposed (C20 defect)",
+    "cum.sequential:zero-size-chunk:result-shape": "sequential cumsum/cumprod/nancumsum over an axis with a zero-size chunk: blocks after the empty "
+                                                   "one are empty (lazy 6, computed 3) or _cumsum_merge raises; C25.md #6, no fix proposed",
+    "coarsen:zero-size-chunk:result-shape": "coarsen drops chunks that coarsen to 0 from .chunks but keeps their keys: lazy (6,1) computed (0,1); C25.md #7",
+    "reduce.var-std:zero-size-chunk:vs-numpy-values": "var/std of an array with a zero-size chunk is NaN (0/0 in the moment combine); metadata is "
+                                                      "consistent, C22 value defect; C25.md #8",
 }
 
 CALIBRATION = [
